@@ -144,7 +144,10 @@ QNameOf(nd) == IF nd.pre = <<>> THEN nd.loc ELSE nd.pre \o <<58>> \o nd.loc
 ToStr(d, x) ==
   CASE x.t = "str"   -> x
     [] x.t = "bool"  -> StrV(BoolStr(x.v))
-    [] x.t = "num"   -> IF IsUnk(x.n) THEN UnkV ELSE StrV(NumToStr(x.n))
+    [] x.t = "num"   -> IF IsUnk(x.n) THEN UnkV
+                        \* as-is "negative-zero-string": string(-0) is "-0" (XPath: both zeros are "0")
+                        ELSE IF "negative-zero-string" \in Dev /\ x.n.cls = "nzero" THEN StrV(<<45, 48>>)
+                        ELSE StrV(NumToStr(x.n))
     [] x.t = "nodes" -> IF Len(x.v) = 0 THEN StrV(<<>>) ELSE StrV(StringValue(d, x.v[1]))
     [] OTHER         -> x
 
